@@ -445,7 +445,7 @@ func genCaseTokList(t *rapid.T) CaseTokList {
 		flags = genTokFlags(t)
 	case "uriparams":
 		flags = uint(pick(t, "upf", sipsp.POptTokURIParamF, sipsp.POptTokQmTermF, sipsp.POptTokSpTermF, sipsp.POptNoneF, sipsp.POptTokCommaTermF)) | uint(sipsp.POptParamSemiSepF)
-		c.PCap = pick(t, "pcap", -1, 0, 1, 2, 3, 10)
+		c.PCap = pick(t, "pcap", -1, 0, 1, 2, 3, 10, 16, 17, 33, 100, 256, 300)
 	default:
 		flags = uint(pick(t, "uhf", sipsp.POptNoneF, sipsp.POptTokSpTermF, sipsp.POptTokCommaTermF)) | uint(sipsp.POptParamAmpSepF|sipsp.POptTokURIHdrF)
 		c.PCap = pick(t, "pcap", -1, 0, 1, 2, 3, 10)
